@@ -305,6 +305,8 @@ def _exec(op, kv):
         return _call(kv)
     if op == "CALLS":
         return _calls_loop(kv)
+    if op == "DEFAULTS":
+        return _defaults()
     if op == "INDELFILE":
         return _indelfile(kv)
     return "bad-op"
@@ -560,3 +562,37 @@ def _calls_loop(kv):
     ind = mi.look_for_indels_in_breakage({chrom: [al]}, {chrom: rm}, {qid: qm},
                                          {qid: [int(kv["BP"]), BenchmarkAlignedPair.create(str(r), str(q))]})
     return ";".join(_show_call(c + [1]) for c in ind["insertion"] + ind["deletion"])
+
+
+def _defaults():
+    """what the real `Args.parse` + `WorkflowCoordinatorFactory.create` build from an argument list without options,
+    read off the constructed objects (scorer, segment factory, pairing engine, chainer, sequence generators, peak
+    selector) — not off the Args fields — so that a mix-up in the factory's wiring shows as well"""
+    import os
+    import tempfile
+    from src.args import Args
+    from src.extensions.dispatcher import Dispatcher
+    from src.workflow_coordinator_factory import WorkflowCoordinatorFactory
+    d = tempfile.mkdtemp(prefix="defaults", dir=os.environ.get("VERIF_TMP"))
+    try:
+        r, q, o = (os.path.join(d, n) for n in ("r.cmap", "q.cmap", "o.xmap"))
+        for p in (r, q):
+            open(p, "w").close()
+        args = Args.parse(["-r", r, "-q", q, "-o", o])
+        wc = WorkflowCoordinatorFactory(args, Dispatcher([]), None).create()
+        for f in (args.referenceFile, args.queryFile, args.outputFile):
+            f.close()
+        al = wc.aligner
+        sc = al.scorer
+        fac = al.segmentsFactory
+        ch = al.segmentConflictResolver.segmentChainer.sequentialityScorer
+        g2 = wc.secondaryGenerator
+        get = lambda o, *names: next(getattr(o, n) for n in names if hasattr(o, n))  # noqa: E731
+        return (f"sp={num(get(sc, 'perfectMatchScore'))} dp={num(get(sc, 'distancePenaltyMultiplier', 'scoreMultiplier'))} "
+                f"su={num(get(sc, 'unmatchedPenalty'))} md={num(al.alignmentEngine.maxDistance)} ms={num(fac.minScore)} "
+                f"bs={num(fac.breakSegmentThreshold)} r2={num(g2.resolution)} b2={num(g2.blurRadius)} ma={num(args.secondaryMargin)} "
+                f"pt={rat(Fraction(args.peakHeightThreshold))} keep=10 sj={rat(Fraction(get(ch, 'segmentJoinMultiplier', 'multiplier')))} "
+                f"ss={num(get(ch, 'sequentialityScore', 'variant'))} diff={num(args.maxDifference)}")
+    finally:
+        import shutil
+        shutil.rmtree(d, ignore_errors=True)
